@@ -108,7 +108,8 @@ PROPS = {
         "Emitted save/assign/restore brackets of tal:define and tal:repeat are proved to restore the "
         "outer binding (or undefinedness) on normal exit, globals are proved to persist in scope and "
         "in the render-wide context, and macro calls receive a copy of the scope and merge globals back.",
-        [K("k3::S-Define"), K("k3::S-Define-clauses"), K("k3::S-Define-tuple"), K("k3::S-Repeat"), K("k3::S-UseExternal"), K("k3::S-MacroUseInternal"),
+        [K("k3::S-Define"), K("k3::S-Define-clauses"), K("k3::S-Define-tuple"), K("k3::S-Define-nested-same"), K("k3::S-Repeat"),
+         K("k3::S-Repeat-comprehension"), K("k3::S-UseExternal"), K("k3::S-UseExternal-filler-define"), K("k3::S-MacroUseInternal"),
          ] + RESERVED + [
          K("k3::S-OnError-Define"), K("k3::S-GlobalInLocal"), K("k3::S-LambdaScope"), FRESH] +
         [K("utils.py::Scope." + m) for m in ("get", "__getitem__", "__contains__", "get_name", "set_global", "copy")],
@@ -381,7 +382,7 @@ PROPS = {
                       "position (unbounded: beyond 26 and 3999).",
         "level_note": "Trusted: list_iterator.__length_hint__ axiom, str/int builtin models "
                       "(conformance-tested). " + K3_NOTE,
-        "units": REPEAT + [K("k3::S-Repeat"), K("k3::S-Repeat-indent"), FRESH,
+        "units": REPEAT + [K("k3::S-Repeat"), K("k3::S-Repeat-indent"), K("k3::S-Repeat-comprehension"), FRESH,
                            U('pyvc.frames', 'render_write_frame', 'render.write_frame')],
         "not_decided": [
                         "roman()/lower() case mapping", "whitespace computed by visit_element"],
